@@ -72,7 +72,8 @@ class TEnv:
 
 
 class TWorld:
-    def __init__(self, chooser, router, *, granularity="line", trace_files=None, horizon=20000):
+    def __init__(self, chooser, router, *, granularity="line", trace_files=None, horizon=20000, trace_quals=None):
+        self.trace_quals = tuple(trace_quals) if trace_quals else None
         tshim.install()
         self.chooser = chooser
         self.env = TEnv(self)
@@ -245,6 +246,8 @@ class TWorld:
             return None
         fn = frame.f_code.co_filename
         if not fn.endswith(self.trace_files):
+            return None
+        if self.trace_quals is not None and not frame.f_code.co_qualname.startswith(self.trace_quals):
             return None
         return self._local
 
